@@ -3,7 +3,7 @@
 (* a restart starts a new incarnation with an OnLaunch delivered to the       *)
 (* restarted actor itself and (with a provider) a fresh instance.             *)
 EXTENDS Integers, Sequences, FiniteSets, TLC, Json
-VARIABLES l, bad, phase, awaitLaunch, lastInst, newInst, zombies
+VARIABLES l, bad, phase, awaitLaunch, lastInst, newInst, zombies, depth, noSuch
 
 (***************************************************************************)
 (* Trace alphabet (one JSON object per line, totally ordered by the turn   *)
@@ -23,9 +23,9 @@ Get(f, k, d) == IF k \in DOMAIN f THEN f[k] ELSE d
 Put(f, k, v) == [x \in DOMAIN f \cup {k} |-> IF x = k THEN v ELSE f[x]]
 Flag(rule) == IF bad = "" THEN rule ELSE bad
 Range(s) == {s[i] : i \in 1..Len(s)}
-vars == <<l, bad, phase, awaitLaunch, lastInst, newInst, zombies>>
-Fresh == phase = <<>> /\ awaitLaunch = {} /\ lastInst = <<>> /\ newInst = {} /\ zombies = {}
-FreshNext == phase' = <<>> /\ awaitLaunch' = {} /\ lastInst' = <<>> /\ newInst' = {} /\ zombies' = {}
+vars == <<l, bad, phase, awaitLaunch, lastInst, newInst, zombies, depth, noSuch>>
+Fresh == phase = <<>> /\ awaitLaunch = {} /\ lastInst = <<>> /\ newInst = {} /\ zombies = {} /\ depth = <<>> /\ noSuch = {}
+FreshNext == phase' = <<>> /\ awaitLaunch' = {} /\ lastInst' = <<>> /\ newInst' = {} /\ zombies' = {} /\ depth' = <<>> /\ noSuch' = {}
 Init == l = 1 /\ bad = "" /\ Fresh
 OnDeliv ==
     /\ (Ev.e = "Deliv")
@@ -39,8 +39,10 @@ OnDeliv ==
                   ELSE IF Ev.k # "launch" /\ ph = "none" THEN Flag("LaunchFirst")
                   ELSE IF Ev.k # "launch" /\ ph = "dead" THEN Flag("NothingAfterOwnKilled")
                   ELSE IF a \in newInst /\ Ev.i = Get(lastInst, a, -1) THEN Flag("ProviderGivesFreshInstance")
+                  ELSE IF a \in noSuch THEN Flag("FailedSpawnReceivesNothing")
+                  ELSE IF Ev.k = "user" /\ Ev.n # Get(depth, a, 0) THEN Flag("BehaviourStackFollowsBecomeAndRestart")
                   ELSE bad
-    /\ UNCHANGED <<zombies>>
+    /\ UNCHANGED <<zombies, depth, noSuch>>
 OnHook ==
     /\ (Ev.e = "Hook")
     /\ IF Ev.k = "restarted"
@@ -49,21 +51,31 @@ OnHook ==
             /\ awaitLaunch' = IF Ev.v = 1 THEN awaitLaunch \cup {Ev.a} ELSE awaitLaunch
             /\ newInst' = newInst \cup {Ev.a}
             /\ zombies' = IF Ev.v = 0 THEN zombies \cup {Ev.a} ELSE zombies
+            /\ depth' = Put(depth, Ev.a, 0)            \* a new incarnation starts with the actor's OnReceive alone
        ELSE /\ zombies' = IF Ev.v = 0 /\ Ev.k = "prelaunch" THEN zombies \cup {Ev.a} ELSE zombies
             /\ awaitLaunch' = IF Ev.v = 0 /\ Ev.k = "prelaunch" THEN awaitLaunch \ {Ev.a} ELSE awaitLaunch
-            /\ UNCHANGED <<bad, phase, newInst>>
-    /\ UNCHANGED <<lastInst>>
+            /\ UNCHANGED <<bad, phase, newInst, depth, noSuch>>
+    /\ UNCHANGED <<lastInst, noSuch>>
+(* Become a n: the actor's script called Become / UnBecome (stacking or discarding); n = label of the behaviour that *)
+(* is on top afterwards (0 = the actor's own OnReceive)                                                            *)
+OnBecome == /\ Ev.e = "Become" /\ depth' = Put(depth, Ev.a, Ev.n)
+            /\ UNCHANGED <<bad, phase, awaitLaunch, lastInst, newInst, zombies, noSuch>>
+(* SpawnErr a: ActorOf returned an error for a (its OnPrelaunch failed): the actor never exists *)
+OnSpawnErr == /\ Ev.e = "SpawnErr" /\ noSuch' = noSuch \cup {Ev.a}
+              /\ UNCHANGED <<bad, phase, awaitLaunch, lastInst, newInst, zombies, depth>>
+OnFindNoSuch == /\ Ev.e = "Find" /\ bad' = (IF Ev.v = 1 /\ Ev.a \in noSuch THEN Flag("FailedSpawnLeavesNoActor") ELSE bad)
+                /\ UNCHANGED <<phase, awaitLaunch, lastInst, newInst, zombies, depth, noSuch>>
 OnQEnd ==
     /\ (Ev.e = "QEnd")
     /\ bad' = IF awaitLaunch \ zombies # {} THEN Flag("RestartedWithoutLaunch") ELSE bad
-    /\ UNCHANGED <<phase, awaitLaunch, lastInst, newInst, zombies>>
+    /\ UNCHANGED <<phase, awaitLaunch, lastInst, newInst, zombies, depth, noSuch>>
 OnEvKilled ==
     /\ (Ev.e = "EvKilled")
     /\ awaitLaunch' = awaitLaunch \ {Ev.a}
-    /\ UNCHANGED <<bad, phase, lastInst, newInst, zombies>>
+    /\ UNCHANGED <<bad, phase, lastInst, newInst, zombies, depth, noSuch>>
 OnReset == Ev.e = "Reset" /\ FreshNext /\ UNCHANGED bad
-OnOther == Ev.e \notin {"Deliv", "Hook", "QEnd", "EvKilled", "Reset"} /\ UNCHANGED <<bad, phase, awaitLaunch, lastInst, newInst, zombies>>
-Next == l <= Len(TLog) /\ l' = l + 1 /\ (OnDeliv \/ OnHook \/ OnQEnd \/ OnEvKilled \/ OnReset \/ OnOther)
+OnOther == Ev.e \notin {"Deliv", "Hook", "QEnd", "EvKilled", "Reset", "Become", "SpawnErr", "Find"} /\ UNCHANGED <<bad, phase, awaitLaunch, lastInst, newInst, zombies, depth, noSuch>>
+Next == l <= Len(TLog) /\ l' = l + 1 /\ (OnDeliv \/ OnBecome \/ OnSpawnErr \/ OnFindNoSuch \/ OnHook \/ OnQEnd \/ OnEvKilled \/ OnReset \/ OnOther)
 Spec == Init /\ [][Next]_vars
 
 Ok == bad = ""
